@@ -6,6 +6,7 @@ import (
 	"fmt"
 	"go/token"
 	"go/types"
+	"strings"
 
 	"golang.org/x/tools/go/ssa"
 )
@@ -14,7 +15,7 @@ func init() {
 	register(&propDef{
 		ID: "C10",
 		Meta: propMeta{
-			Explanation: "Decides that every acceptance conjunct and every consumer-side check of the timestamp protocol is on every path: (R10a) ParseResponse succeeds only after a clean ASN.1 parse with no trailing bytes, a granted status and SanityCheckToken==nil; SanityCheckToken succeeds only after the token's signature verified, the nonce compared equal and the imprint hmac.Equal to the request's; the client's RFC 3161 path returns only what ParseResponse of this request's message returned, after an HTTP 200; requests carry a fresh nonce and the caller's imprint; (R10b) at every consumer call of Timestamper.Timestamp (pass-through middlewares excepted) the function can succeed only after a verification primitive (pkcs9.Verify / VerifyTimestamp / the PKCS#7 self-check after attaching) was applied to that token and to the very signature value that was sent; (R10c) errors of Timestamp / TimestampAndMarshal are never dropped and their failure edges reach no success return; signinit.Init cannot succeed without installing a Timestamper when the key configuration asks for one; (R10d) the client tries the configured URLs in order inside a loop, a failure reaches the next attempt unless the caller's context ended, success returns the token of the successful attempt, and exhaustion returns a non-nil error; (R10e) CounterSignature values are built only by finishVerify / VerifyMicrosoftToken after the counter-signer's signature verified and the imprint / content was compared with the parent signature value passed in by the caller; (R10f) chains are judged at the attested time: TimestampedSignature.VerifyChain passes the counter-signature's SigningTime, only after the counter-signature's own chain verified.",
+			Explanation: "Decides that every acceptance conjunct and every consumer-side check of the timestamp protocol is on every path: (R10a) ParseResponse succeeds only after a clean ASN.1 parse with no trailing bytes, a granted status and SanityCheckToken==nil; SanityCheckToken succeeds only after the token's signature verified, the nonce compared equal and the imprint hmac.Equal to the request's; the client's RFC 3161 path returns only what ParseResponse of this request's message returned, after an HTTP 200; requests carry a fresh nonce and the caller's imprint; (R10b) at every consumer call of Timestamper.Timestamp (pass-through middlewares excepted) the function can succeed only after a verification primitive (pkcs9.Verify / VerifyTimestamp / the PKCS#7 self-check after attaching) was applied to that token and to the very signature value that was sent; (R10c) errors of Timestamp / TimestampAndMarshal are never dropped and their failure edges reach no success return; signinit.Init cannot succeed without installing a Timestamper when the key configuration asks for one; (R10d) the client tries the configured URLs in order inside a loop, a failure reaches the next attempt unless the caller's context ended, success returns the token of the successful attempt, and exhaustion returns a non-nil error; (R10e) CounterSignature values are built only by finishVerify / VerifyMicrosoftToken after the counter-signer's signature verified and the imprint / content was compared with the parent signature value passed in by the caller; (R10f) chains are judged at the attested time: TimestampedSignature.VerifyChain passes the counter-signature's SigningTime, only after the counter-signature's own chain verified; (R10g) functions of lib/pkcs7 and lib/pkcs9 that yield a time.Time never read SignerInfo.UnauthenticatedAttributes, and TimestampAndMarshal runs its self-check (Verify + VerifyOptionalTimestamp on that result) only after the token was attached; in R10d the context whose end may stop the failover must be the caller's own, not one this function wrapped with a deadline.",
 			NotDecided:  "RFC 3161 semantics inside encoding/asn1, network hangs/timeouts, rate limiting, and whether the legacy Microsoft authority's reply is genuine before the consumer-side check.",
 			Assumptions: []string{"hmac.Equal/bytes.Equal/(*big.Int).Cmp compare what they are given"},
 		},
@@ -26,6 +27,7 @@ func runC10(c *Ctx) {
 	c.Rule("R10a", "ParseResponse/SanityCheckToken/tsClient.do accept a reply only after every conjunct (parse, no trailing bytes, granted, token signature, nonce, imprint, HTTP 200)", 9)
 	c.Rule("R10b", "a function that obtains a token from Timestamper.Timestamp succeeds only after verifying that token against the signature value it sent", 5)
 	c.Rule("R10c", "timestamping failures are never swallowed; a configured timestamper is always installed", 12)
+	defer c10Attested(c)
 	c.Rule("R10d", "ordered failover: attempts in a loop over the configured URLs; failure continues unless the context ended; exhaustion is an error", 4)
 	c.Rule("R10e", "counter-signatures are constructed only after signature and imprint checks against the parent signature value", 6)
 	c.Rule("R10f", "chain validation uses the attested time, after the timestamp's own chain verified", 3)
@@ -644,9 +646,24 @@ func c10Failover(c *Ctx) {
 		return
 	}
 	// failure continues to the next attempt unless ctx ended
+	// the context must be the caller's own: one that this function wrapped with a deadline
+	// (WithTimeout / WithDeadline) also ends when a single slow authority used up the budget
+	derivedHere := func(v ssa.Value) bool {
+		return dependsOn(v, func(x ssa.Value) bool {
+			call, ok := x.(*ssa.Call)
+			if !ok {
+				return false
+			}
+			n := p.calleeName(call.Common())
+			return n == "context.WithTimeout" || n == "context.WithDeadline"
+		})
+	}
 	ctxEnded := Guard{Match: func(f Fact) bool {
 		call, _ := resultOf(f.V)
-		return f.Kind == NonNil && call != nil && p.calleeName(call.Common()) == "(context.Context).Err"
+		if f.Kind != NonNil || call == nil || p.calleeName(call.Common()) != "(context.Context).Err" {
+			return false
+		}
+		return !derivedHere(call.Common().Value)
 	}}
 	var failStarts []*ssa.BasicBlock
 	// direct tests of this attempt's error only (the loop-carried `err` variable is tested
@@ -948,4 +965,70 @@ func c10VerifySide(c *Ctx) {
 	} else {
 		c.Undecided(rf, "pkcs7.Signature.VerifyChain", "-", "function not found")
 	}
+}
+
+// ------------------------------------------------------------------------------ R10g
+
+// c10Attested: (a) the time a counter-signature attests is read from authenticated attributes
+// only; (b) the self-check that covers a freshly attached token runs after the token was attached.
+func c10Attested(c *Ctx) {
+	p := c.P
+	c.Rule("R10g", "attested time comes from authenticated attributes only; the self-check runs on the structure that already carries the token", 3)
+	n := 0
+	for _, rel := range []string{"lib/pkcs7", "lib/pkcs9"} {
+		for _, fn := range p.pkgFuncs(rel) {
+			res := fn.Signature.Results()
+			hasTime := false
+			for i := 0; i < res.Len(); i++ {
+				if res.At(i).Type().String() == "time.Time" {
+					hasTime = true
+				}
+			}
+			if !hasTime {
+				continue
+			}
+			n++
+			bad := ""
+			for _, b := range fn.Blocks {
+				for _, in := range b.Instrs {
+					var tn, fld string
+					switch x := in.(type) {
+					case *ssa.FieldAddr:
+						tn, fld, _ = p.fieldAddr(x)
+					case *ssa.Field:
+						tn, fld, _ = p.fieldLoad(x)
+					}
+					if strings.HasSuffix(tn, "pkcs7.SignerInfo") && fld == "UnauthenticatedAttributes" {
+						bad = p.Pos(in.Pos())
+					}
+				}
+			}
+			c.Analysed(p.FName(fn))
+			c.Check(bad == "", "R10g", p.FName(fn)+" reads time from authenticated data only", p.Pos(fn.Pos()), "", "a function that yields the attested signing time reads SignerInfo.UnauthenticatedAttributes ("+bad+"): anyone can add an unauthenticated signingTime to a file, and the certificate chain is then judged at a time nobody attested")
+		}
+	}
+	if n < 2 {
+		c.Undecided("R10g", "time-yielding functions", "-", fmt.Sprintf("only %d functions returning time.Time found in lib/pkcs7|pkcs9 (2+ confirmed by reading)", n))
+	}
+	tm := p.Func("lib/pkcs9.TimestampAndMarshal")
+	if tm == nil {
+		c.Undecided("R10g", "TimestampAndMarshal", "-", "function not found")
+		return
+	}
+	c.Analysed(p.FName(tm))
+	ver := p.callsIn(tm, "(*lib/pkcs7.SignedData).Verify")
+	vot := p.callsIn(tm, "lib/pkcs9.VerifyOptionalTimestamp")
+	adds := p.callsIn(tm, "lib/pkcs9.AddStampToSignedAuthenticode", "lib/pkcs9.AddStampToSignedData")
+	ok := len(ver) == 1 && len(vot) == 1 && len(adds) == 2
+	if ok {
+		// the verified snapshot handed to VerifyOptionalTimestamp is the result of that Verify
+		call, idx := resultOf(vot[0].Common().Args[0])
+		ok = call == ver[0] && idx == 0
+		for _, a := range adds {
+			if reachableAfter(tm, ver[0], a, nil, nil) {
+				ok = false
+			}
+		}
+	}
+	c.Check(ok, "R10g", "TimestampAndMarshal self-checks after attaching the token", p.Pos(tm.Pos()), "no AddStampTo* call can follow the Verify whose result is checked for a timestamp", "the self-check (SignedData.Verify + VerifyOptionalTimestamp) can run before the timestamp token is attached: it inspects a snapshot that does not carry the token, so a wrong token (stale cache entry, other signature's token) is attached and shipped unverified")
 }
